@@ -14,8 +14,9 @@ def sh(c, cwd=None, to=2400):
     except subprocess.TimeoutExpired:
         return 124, "timeout"
 meta = json.load(open(os.path.join(d, "meta.json")))
-wt = "/tmp/verif-seedconf-%d" % os.getpid()
-rc, out = sh("git -C /repo worktree add --detach %s HEAD" % wt)
+sys.path.insert(0, os.path.dirname(os.path.abspath(__file__)))
+import slots
+wt = slots.acquire()
 res = {"head": sh("git -C /repo rev-parse --short HEAD")[1].strip(), "when": time.strftime("%Y-%m-%d %H:%M")}
 try:
     rc, out = sh("git apply --whitespace=nowarn %s" % os.path.join(d, "demo.diff"), cwd=wt)
@@ -36,7 +37,7 @@ try:
         res["existing_tests_touched_pkgs"] = {"pkgs": pkgs, "result": "pass" if rc == 0 else "FAIL"}
         if rc: res["tests_out"] = "\n".join([l for l in out.splitlines() if l.startswith(("FAIL", "---", "ok"))][:12])
 finally:
-    sh("git -C /repo worktree remove --force %s" % wt); sh("git -C /repo worktree prune")
+    slots.release(wt)
 ok = res.get("demo_without_change") == "pass" and res.get("demo_with_change") == "fail" and (skip or res.get("existing_tests_touched_pkgs", {}).get("result") == "pass")
 res["confirmed"] = ok
 print(json.dumps(res, indent=1))
